@@ -617,17 +617,18 @@ def evaluate(text, gold, units=None):
         ('boundary_noedge_recall', boundary_noedge_eval.recall()),
         ('boundary_noedge_fscore', boundary_noedge_eval.fscore())))
 
-    if units:
+    if units is not None:
         # ignore empty lines, as read_data() does for the scores above
         text, gold, units = (
             [utt for utt in t if utt.strip()] for t in (text, gold, units))
+        # (an empty units text is checked against the text as any other)
         labels_text = compute_class_labels(text, units)
         labels_gold = compute_class_labels(gold, units)
         with warnings.catch_warnings():
             # ignore a warning issued by sklearn
             warnings.simplefilter('ignore', category=PendingDeprecationWarning)
             results['adjusted_rand_index'] = adjusted_rand_score(
-                labels_gold, labels_text)
+                labels_gold, labels_text) if len(labels_gold) else None
 
     return results
 
